@@ -1,0 +1,15 @@
+//go:build verif
+
+package kv
+
+// VerifFamilyIdle reports whether no background compaction / rollup job of the family is marked as running.
+// family.compact() resets its "compacting" flag AFTER releasing the wait group that VerifFamilyWait waits on;
+// the C03 verification harness spins on this accessor so that the next Family.Compact() is not silently skipped
+// (only compiled with -tags verif; no behaviour change).
+func VerifFamilyIdle(f Family) bool {
+	ff, ok := f.(*family)
+	if !ok {
+		return true
+	}
+	return !ff.compacting.Load() && !ff.rolluping.Load()
+}
